@@ -43,4 +43,10 @@ here = os.path.join(os.path.dirname(os.path.dirname(os.path.abspath(__file__))),
 json.dump(sorted(known), open(os.path.join(here, "known_funcs.json"), "w"), indent=0)
 json.dump(sigs, open(os.path.join(here, "known_sigs.json"), "w"), indent=0, sort_keys=True)
 json.dump(locs, open(os.path.join(here, "known_locals.json"), "w"), indent=0, sort_keys=True)
+classes = set()
+for mod, tree in trees.items():
+    for n in ast.walk(tree):
+        if isinstance(n, ast.ClassDef):
+            classes.add(f"{mod}:{n.name}")
+json.dump(sorted(classes), open(os.path.join(here, "known_classes.json"), "w"), indent=0)
 print(len(known), "functions", sum(len(v) for v in locs.values()), "locals")
